@@ -49,23 +49,72 @@ def evalE (cs : Bool) (s : Store) : Expr → Option Int
   | .cond _ c a b =>
     (evalE cs s c).bind fun v => if v ≠ 0 then evalE cs s a else evalE cs s b
 
+/-- The arguments of a call (pure expressions, already converted to the parameter types). -/
+def evalArgs (cs : Bool) (s : Store) : List Expr → Option (List Int)
+  | [] => some []
+  | e :: es => (evalE cs s e).bind fun v => (evalArgs cs s es).map fun vs => v :: vs
+
+/-- cell of element `e` of the array variable `arr` -/
+def ecell (arr xb e : Nat) : Nat := if e = 0 then arr else xb + (e - 1)
+
+/-- Expressions that may read an array element or call a function (stage D/E inside expressions).  The
+    index of `a[i]` and the arguments of a call are pure expressions of 𝔽₁ (no nested calls or subscripts
+    there); everything else nests freely.  The arguments have been converted to the parameter types, `rt`
+    is the return type of the callee; `n`, `xb`: as in `Stmt.aload`. -/
+inductive Expr3 where
+  | pure (e : Expr)
+  | idx (t : Ty) (arr n xb : Nat) (i : Expr)
+  | call (rt : Ty) (fn : String) (args : List Expr)
+  | cast (t : Ty) (e : Expr3)
+  | neg (t : Ty) (e : Expr3)
+  | bin (op : BinOp) (t : Ty) (l r : Expr3)
+  | cond (t : Ty) (c a b : Expr3)
+  deriving Repr, Inhabited
+
+/-- constants and variables as `Expr3` (so that the trees of 𝔽₁ can be written as before) -/
+def Expr3.const (t : Ty) (u : Nat) : Expr3 := .pure (.const t u)
+def Expr3.param (t : Ty) (i : Nat) : Expr3 := .pure (.param t i)
+
+def Expr3.ty : Expr3 → Ty
+  | .pure e => e.ty
+  | .idx t _ _ _ _ | .call t _ _ | .cast t _ | .neg t _ | .bin _ t _ _ | .cond t _ _ _ => t
+
+/-- `evalE` with array reads and calls; `callf fn vs` is what the call `fn(vs)` returns (`none`: undefined,
+    or not within the fuel).  A callee cannot touch the objects of its caller and the arguments are passed by
+    value, so evaluation has no effect on the store and the order of the operands does not matter. -/
+def evalE3 (cs : Bool) (callf : String → List Int → Option Int) (s : Store) : Expr3 → Option Int
+  | .pure e => evalE cs s e
+  | .idx _ arr n xb i =>
+    (evalE cs s i).bind fun iv =>
+      if 0 ≤ iv ∧ iv < (n : Int) then (s[ecell arr xb iv.toNat]?).join else none
+  | .call _ fn args => (evalArgs cs s args).bind fun vs => callf fn vs
+  | .cast t e => (evalE3 cs callf s e).map (conv (e.ty.intTy cs) (t.intTy cs))
+  | .neg t e => (evalE3 cs callf s e).bind (un .neg (t.intTy cs))
+  | .bin op _ l r =>
+    match op with
+    | .lor => (evalE3 cs callf s l).bind fun a => lorSC a (evalE3 cs callf s r)
+    | .land => (evalE3 cs callf s l).bind fun a => landSC a (evalE3 cs callf s r)
+    | op => (evalE3 cs callf s l).bind fun a => (evalE3 cs callf s r).bind fun b => bin op (l.ty.intTy cs) a b
+  | .cond _ c a b =>
+    (evalE3 cs callf s c).bind fun v => if v ≠ 0 then evalE3 cs callf s a else evalE3 cs callf s b
+
 inductive Stmt where
   | skip
-  | decl (i : Nat) (t : Ty) (init : Option Expr)
-  | assign (i : Nat) (t : Ty) (e : Expr)
+  | decl (i : Nat) (t : Ty) (init : Option Expr3)
+  | assign (i : Nat) (t : Ty) (e : Expr3)
   | incdec (i : Nat) (t : Ty) (inc : Bool)
-  | expr (e : Expr)
-  | ret (e : Expr)
+  | expr (e : Expr3)
+  | ret (e : Expr3)
   | seq (a b : Stmt)
-  | ite (c : Expr) (a : Stmt)
-  | itee (c : Expr) (a b : Stmt)
-  | while_ (c : Expr) (b : Stmt)
-  | dowhile (b : Stmt) (c : Expr)
-  | for_ (c : Option Expr) (step b : Stmt)
+  | ite (c : Expr3) (a : Stmt)
+  | itee (c : Expr3) (a b : Stmt)
+  | while_ (c : Expr3) (b : Stmt)
+  | dowhile (b : Stmt) (c : Expr3)
+  | for_ (c : Option Expr3) (step b : Stmt)
   | break_
   | continue_
   /-- `switch (e) body`; `e` already promoted (`exprpromote`) -/
-  | switch_ (e : Expr) (b : Stmt)
+  | switch_ (e : Expr3) (b : Stmt)
   /-- `case u:` — a label; `u` is the value of the constant expression as `intconstexpr` returns it
       (an unsigned 64-bit number, negative values sign-extended) -/
   | case_ (u : Nat)
@@ -84,7 +133,7 @@ inductive Stmt where
       `dt ≠ t` -/
   | aload (dst : Nat) (dt : Ty) (arr : Nat) (t : Ty) (n xb : Nat) (idx : Expr)
   /-- `a[idx] = e;` — `e` already converted to the element type `t` -/
-  | astore (arr : Nat) (t : Ty) (n xb : Nat) (idx : Expr) (e : Expr)
+  | astore (arr : Nat) (t : Ty) (n xb : Nat) (idx : Expr) (e : Expr3)
   deriving Repr, Inhabited
 
 inductive Outcome where
@@ -175,9 +224,6 @@ def xbase (cnts : List Nat) (k : Nat) : Nat := cnts.length + xcount cnts k
 /-- number of cells beyond one per variable -/
 def Func.extra (f : Func) : Nat := xcount f.cnts f.cnts.length
 
-/-- cell of element `e` of the array variable `arr` -/
-def ecell (arr xb e : Nat) : Nat := if e = 0 then arr else xb + (e - 1)
-
 /-- The store on entry: the arguments, every local (and every array element) indeterminate. -/
 def initStore (f : Func) (ρ : List Int) : Store :=
   ρ.map some ++ List.replicate (f.locals.length + f.extra) none
@@ -185,37 +231,43 @@ def initStore (f : Func) (ρ : List Int) : Store :=
 /-- The function a call names: the first function of the program with that name. -/
 def lookup (P : List Func) (fn : String) : Option Func := P.find? fun g => g.name == fn
 
-/-- The arguments of a call (pure expressions, already converted to the parameter types). -/
-def evalArgs (cs : Bool) (s : Store) : List Expr → Option (List Int)
-  | [] => some []
-  | e :: es => (evalE cs s e).bind fun v => (evalArgs cs s es).map fun vs => v :: vs
-
 /-- Big-step execution with fuel (one unit per nesting level / loop iteration / call) in the program `P`
     (the functions a call may name; `[]` for a single function: a call then has no meaning).  A call
     evaluates the arguments in the caller's store, executes the callee's body on a fresh store with
     fuel one less and, if a variable receives the result, converts the returned value to its type
     (6.5.16.1p2); flowing off the end of the callee without `return` is undefined here. -/
+def callOf (P : List Func) (run : Store → Stmt → Option Outcome) (fn : String) (vs : List Int) :
+    Option Int :=
+  match lookup P fn with
+  | none => none
+  | some g =>
+    match run (initStore g vs) g.body with
+    | some (.ret v) => some v
+    | _ => none
+
 def exec (cs : Bool) (P : List Func) : Nat → Store → Stmt → Option Outcome
   | 0, _, _ => none
   | _ + 1, s, .skip => some (.normal s)
   | _ + 1, s, .decl i _ none => some (.normal (s.set i none))
-  | _ + 1, s, .decl i _ (some e) =>
-    (evalE cs (s.set i none) e).map fun v => .normal (s.set i (some v))
-  | _ + 1, s, .assign i _ e => (evalE cs s e).map fun v => .normal (s.set i (some v))
+  | n + 1, s, .decl i _ (some e) =>
+    (evalE3 cs (callOf P fun s' st' => exec cs P n s' st') (s.set i none) e).map fun v =>
+      .normal (s.set i (some v))
+  | n + 1, s, .assign i _ e =>
+    (evalE3 cs (callOf P fun s' st' => exec cs P n s' st') s e).map fun v => .normal (s.set i (some v))
   | _ + 1, s, .incdec i t inc =>
     ((s[i]?).join.bind (incdecVal cs t inc)).map fun v => .normal (s.set i (some v))
-  | _ + 1, s, .expr e => (evalE cs s e).map fun _ => .normal s
-  | _ + 1, s, .ret e => (evalE cs s e).map .ret
+  | n + 1, s, .expr e => (evalE3 cs (callOf P fun s' st' => exec cs P n s' st') s e).map fun _ => .normal s
+  | n + 1, s, .ret e => (evalE3 cs (callOf P fun s' st' => exec cs P n s' st') s e).map .ret
   | n + 1, s, .seq a b =>
     match exec cs P n s a with
     | some (.normal s') => exec cs P n s' b
     | o => o
   | n + 1, s, .ite c a =>
-    (evalE cs s c).bind fun v => if v ≠ 0 then exec cs P n s a else some (.normal s)
+    (evalE3 cs (callOf P fun s' st' => exec cs P n s' st') s c).bind fun v => if v ≠ 0 then exec cs P n s a else some (.normal s)
   | n + 1, s, .itee c a b =>
-    (evalE cs s c).bind fun v => if v ≠ 0 then exec cs P n s a else exec cs P n s b
+    (evalE3 cs (callOf P fun s' st' => exec cs P n s' st') s c).bind fun v => if v ≠ 0 then exec cs P n s a else exec cs P n s b
   | n + 1, s, .while_ c b =>
-    (evalE cs s c).bind fun v =>
+    (evalE3 cs (callOf P fun s' st' => exec cs P n s' st') s c).bind fun v =>
       if v = 0 then some (.normal s) else
       match exec cs P n s b with
       | some (.normal s') => exec cs P n s' (.while_ c b)
@@ -225,14 +277,16 @@ def exec (cs : Bool) (P : List Func) : Nat → Store → Stmt → Option Outcome
   | n + 1, s, .dowhile b c =>
     match exec cs P n s b with
     | some (.normal s') =>
-      (evalE cs s' c).bind fun v => if v ≠ 0 then exec cs P n s' (.dowhile b c) else some (.normal s')
+      (evalE3 cs (callOf P fun s' st' => exec cs P n s' st') s' c).bind fun v =>
+        if v ≠ 0 then exec cs P n s' (.dowhile b c) else some (.normal s')
     | some (.cont s') =>
-      (evalE cs s' c).bind fun v => if v ≠ 0 then exec cs P n s' (.dowhile b c) else some (.normal s')
+      (evalE3 cs (callOf P fun s' st' => exec cs P n s' st') s' c).bind fun v =>
+        if v ≠ 0 then exec cs P n s' (.dowhile b c) else some (.normal s')
     | some (.brk s') => some (.normal s')
     | o => o
   | n + 1, s, .for_ c step b =>
     ((match c with
-      | some e => evalE cs s e
+      | some e => evalE3 cs (callOf P fun s' st' => exec cs P n s' st') s e
       | none => some 1) : Option Int).bind fun v =>
       if v = 0 then some (.normal s) else
       match exec cs P n s b with
@@ -262,7 +316,7 @@ def exec (cs : Bool) (P : List Func) : Nat → Store → Stmt → Option Outcome
            | some (i, t) => some (.normal (s.set i (some (conv (rt.intTy cs) (t.intTy cs) v)))))
         | _ => none
   | n + 1, s, .switch_ e b =>
-    (evalE cs s e).bind fun v =>
+    (evalE3 cs (callOf P fun s' st' => exec cs P n s' st') s e).bind fun v =>
       match pick cs e.ty v b with
       | none => some (.normal (clear s (declIdx b)))
       | some b' =>
@@ -277,8 +331,8 @@ def exec (cs : Bool) (P : List Func) : Nat → Store → Stmt → Option Outcome
         ((s[ecell arr xb iv.toNat]?).join).map fun v =>
           .normal (s.set dst (some (conv (t.intTy cs) (dt.intTy cs) v)))
       else none
-  | _ + 1, s, .astore arr _ n xb idx e =>
-    (evalE cs s e).bind fun v => (evalE cs s idx).bind fun iv =>
+  | m + 1, s, .astore arr _ n xb idx e =>
+    (evalE3 cs (callOf P fun s' st' => exec cs P m s' st') s e).bind fun v => (evalE cs s idx).bind fun iv =>
       if 0 ≤ iv ∧ iv < (n : Int) then some (.normal (s.set (ecell arr xb iv.toNat) (some v)))
       else none
 
@@ -358,10 +412,45 @@ def optWt (vtys : List Ty) (t : Option Ty) : Option Expr → Bool
     | none => true
     | some t => e.ty == t) && e.wt vtys
 
+/-- no array read (`condexpr` folds its first operand with `eval`, which would rewrite the address of an
+    array element there: such conditions are outside the fragment) -/
+def Expr3.noIdx : Expr3 → Bool
+  | .pure _ | .call .. => true
+  | .idx .. => false
+  | .cast _ e | .neg _ e => e.noIdx
+  | .bin _ _ l r => l.noIdx && r.noIdx
+  | .cond _ c a b => c.noIdx && a.noIdx && b.noIdx
+
+/-- `Expr.wt` for expressions with array reads and calls: the array is a declared variable of the element
+    type; index and arguments are well-typed (that the callee has these parameter types and this return
+    type is `callsOK`, that the array has `n` elements `arrsOK`). -/
+def Expr3.wt (vtys : List Ty) : Expr3 → Bool
+  | .pure e => e.wt vtys
+  | .idx t arr _ _ i => vtys[arr]? == some t && i.wt vtys
+  | .call _ _ args => args.all fun a => a.wt vtys
+  | .cast _ e => e.wt vtys
+  | .neg t e => e.ty == t && t.promoted && e.wt vtys
+  | .bin op t l r =>
+    l.wt vtys && r.wt vtys &&
+    (if isLogic op then t == .int
+     else if op.isShift then l.ty == t && t.promoted && r.ty.promoted
+     else if op.isCmp then l.ty == r.ty && l.ty.promoted && t == .int
+     else l.ty == t && r.ty == t && t.promoted)
+  | .cond t c a b => c.wt vtys && a.wt vtys && b.wt vtys && a.ty == t && b.ty == t && c.noIdx
+
+/-- the second clause of `for`, if present -/
+def optWtC (vtys : List Ty) : Option Expr3 → Bool
+  | none => true
+  | some e => e.wt vtys
+
+def optWt3 (vtys : List Ty) (t : Ty) : Option Expr3 → Bool
+  | none => true
+  | some e => e.ty == t && e.wt vtys
+
 def Stmt.wt (vtys : List Ty) (ret : Ty) : Bool → Bool → Nat → Stmt → Option Nat
   | _, _, nd, .skip => some nd
   | _, _, nd, .decl i t init =>
-    if i = nd ∧ vtys[i]? = some t ∧ optWt (vtys.take (nd + 1)) (some t) init = true then some (nd + 1)
+    if i = nd ∧ vtys[i]? = some t ∧ optWt3 (vtys.take (nd + 1)) t init = true then some (nd + 1)
     else none
   | _, _, nd, .assign i t e =>
     if i < nd ∧ vtys[i]? = some t ∧ e.ty = t ∧ e.wt (vtys.take nd) = true then some nd else none
@@ -386,7 +475,7 @@ def Stmt.wt (vtys : List Ty) (ret : Ty) : Bool → Bool → Nat → Stmt → Opt
         if c.wt (vtys.take nd) = true then some n1 else none
     else none
   | _, _, nd, .for_ c step b =>
-    if optWt (vtys.take nd) none c = true ∧ step.isSimple = true ∧ b.labelFree = true then
+    if optWtC (vtys.take nd) c = true ∧ step.isSimple = true ∧ b.labelFree = true then
       (Stmt.wt vtys ret true true nd b).bind fun n1 =>
         (Stmt.wt vtys ret false false nd step).bind fun _ => some n1
     else none
@@ -411,18 +500,38 @@ def Stmt.wt (vtys : List Ty) (ret : Ty) : Bool → Bool → Nat → Stmt → Opt
         e.wt (vtys.take nd) = true
     then some nd else none
 
+def Expr3.callsOK (P : List Func) : Expr3 → Bool
+  | .pure _ | .idx .. => true
+  | .call rt fn args =>
+    match lookup P fn with
+    | some g => g.ret == rt && args.map (·.ty) == g.params
+    | none => false
+  | .cast _ e | .neg _ e => e.callsOK P
+  | .bin _ _ l r => l.callsOK P && r.callsOK P
+  | .cond _ c a b => c.callsOK P && a.callsOK P && b.callsOK P
+
+def Expr3.arrsOK (cnts : List Nat) : Expr3 → Bool
+  | .pure _ | .call .. => true
+  | .idx _ arr n xb _ => decide (1 ≤ n) && decide (cnts[arr]? = some n) && decide (xb = xbase cnts arr)
+  | .cast _ e | .neg _ e => e.arrsOK cnts
+  | .bin _ _ l r => l.arrsOK cnts && r.arrsOK cnts
+  | .cond _ c a b => c.arrsOK cnts && a.arrsOK cnts && b.arrsOK cnts
+
 /-- every call names a function of the program, with arguments of the parameter types and the
     declared return type -/
 def callsOK (P : List Func) : Stmt → Bool
-  | .skip | .decl .. | .assign .. | .incdec .. | .expr _ | .ret _ | .break_ | .continue_ => true
+  | .decl _ _ (some e) | .assign _ _ e | .expr e | .ret e => e.callsOK P
+  | .skip | .decl _ _ none | .incdec .. | .break_ | .continue_ => true
   | .seq a b => callsOK P a && callsOK P b
-  | .ite _ a => callsOK P a
-  | .itee _ a b => callsOK P a && callsOK P b
-  | .while_ _ b => callsOK P b
-  | .dowhile b _ => callsOK P b
-  | .for_ _ st b => callsOK P st && callsOK P b
-  | .case_ _ | .default_ | .adecl .. | .aload .. | .astore .. => true
-  | .switch_ _ b => callsOK P b
+  | .ite c a => c.callsOK P && callsOK P a
+  | .itee c a b => c.callsOK P && callsOK P a && callsOK P b
+  | .while_ c b => c.callsOK P && callsOK P b
+  | .dowhile b c => c.callsOK P && callsOK P b
+  | .for_ none st b => callsOK P st && callsOK P b
+  | .for_ (some c) st b => c.callsOK P && callsOK P st && callsOK P b
+  | .case_ _ | .default_ | .adecl .. | .aload .. => true
+  | .astore _ _ _ _ _ e => e.callsOK P
+  | .switch_ e b => e.callsOK P && callsOK P b
   | .call _ rt fn args =>
     match lookup P fn with
     | some g => g.ret == rt && args.map (·.ty) == g.params
@@ -431,18 +540,21 @@ def callsOK (P : List Func) : Stmt → Bool
 /-- the array statements agree with the layout: the declared count of the variable, at least one element,
     the cells of its further elements -/
 def arrsOK (cnts : List Nat) : Stmt → Bool
-  | .skip | .decl .. | .assign .. | .incdec .. | .expr _ | .ret _ | .break_ | .continue_ => true
+  | .decl _ _ (some e) | .assign _ _ e | .expr e | .ret e => e.arrsOK cnts
+  | .skip | .decl _ _ none | .incdec .. | .break_ | .continue_ => true
   | .seq a b => arrsOK cnts a && arrsOK cnts b
-  | .ite _ a => arrsOK cnts a
-  | .itee _ a b => arrsOK cnts a && arrsOK cnts b
-  | .while_ _ b => arrsOK cnts b
-  | .dowhile b _ => arrsOK cnts b
-  | .for_ _ st b => arrsOK cnts st && arrsOK cnts b
+  | .ite c a => c.arrsOK cnts && arrsOK cnts a
+  | .itee c a b => c.arrsOK cnts && arrsOK cnts a && arrsOK cnts b
+  | .while_ c b => c.arrsOK cnts && arrsOK cnts b
+  | .dowhile b c => c.arrsOK cnts && arrsOK cnts b
+  | .for_ none st b => arrsOK cnts st && arrsOK cnts b
+  | .for_ (some c) st b => c.arrsOK cnts && arrsOK cnts st && arrsOK cnts b
   | .case_ _ | .default_ | .call .. => true
-  | .switch_ _ b => arrsOK cnts b
+  | .switch_ e b => e.arrsOK cnts && arrsOK cnts b
   | .adecl i _ n xb => decide (1 ≤ n) && decide (cnts[i]? = some n) && decide (xb = xbase cnts i)
   | .aload _ _ arr _ n xb _ => decide (1 ≤ n) && decide (cnts[arr]? = some n) && decide (xb = xbase cnts arr)
-  | .astore arr _ n xb _ _ => decide (1 ≤ n) && decide (cnts[arr]? = some n) && decide (xb = xbase cnts arr)
+  | .astore arr _ n xb _ e =>
+    decide (1 ≤ n) && decide (cnts[arr]? = some n) && decide (xb = xbase cnts arr) && e.arrsOK cnts
 
 /-- a variable declared as a scalar has one element -/
 def declsOK (cnts : List Nat) : Stmt → Bool
